@@ -8,7 +8,7 @@
   sequences), ∀ text, ∀ chunking into non-empty tokens, ∀ end-of-stream protocol.
 -/
 import NemoVerif.Lemmas.Stream
-import NemoVerif.Models.StreamAsIs
+import NemoVerif.Lemmas.StreamAsIs
 namespace NemoVerif.C18
 open NemoVerif.Stream
 
@@ -151,6 +151,23 @@ theorem as_is_witness_several_stops_not_earliest :
     deliveredA (runA cfg 64 ["abx".toList] .empty) = [] ∧
     (runA cfg 64 ["abx".toList] .empty).completion = "a".toList ∧
     deliveredA (runA cfg 64 ["a".toList, "bx".toList] .empty) = "a".toList := by decide
+
+/-- What IS chunk-invariant in the unpatched handler (unbounded): configurations without prefix and
+    without stop sequences — there the as-is model coincides with the repaired one step by step
+    (`runA_nostop`), so `chunk_invariant` carries over, for every re-entrancy bound.  The hypotheses
+    exclude exactly the regions of the four findings (each needs a prefix or a stop sequence).
+    Full statement (false for the as-is model, see the counterexamples above):
+      ∀ cfg, NonemptyStops cfg.stop → … → deliveredA (runA cfg fuel cs e) = spec cfg text e ∧ completion = spec cfg text e -/
+theorem as_is_chunk_invariant_partial (cfg : Cfg) (hp : cfg.pfx = []) (hs : cfg.stop = []) (fuel : Nat)
+    (text : Str) (cs : List Str) (e : EndProto) (hflat : cs.flatten = text) (hne : ∀ c ∈ cs, c ≠ []) :
+    deliveredA (runA cfg fuel cs e) = spec cfg text e ∧ (runA cfg fuel cs e).completion = spec cfg text e ∧
+      (runA cfg fuel cs e).overflow = false := by
+  have h := chunk_invariant cfg (by rw [hs]; intro s h'; cases h') text cs e hflat hne
+  rw [runA_nostop hp hs]
+  exact ⟨h.1, h.2, rfl⟩
+
+/-- non-vacuity of `as_is_chunk_invariant_partial`: suffix-only configuration, suffix split over two chunks -/
+example : deliveredA (runA ⟨[], "\"]".toList, []⟩ 3 ["ab\"".toList, "]".toList] .none) = "ab".toList := by decide
 
 /-- the repaired model on the same four witnesses (instances of `chunk_invariant`, evaluated) -/
 example :
